@@ -167,6 +167,18 @@ def layer_b_exprs(ck, rng, table, n_random, all_triples):
         t, toks, back, kn, o = cases[idx]
         ck.disagree(what.get(fails[idx], 'code %d' % fails[idx]), {'tree': exprs.to_json(t)}, 'model: Coq C08/Corr.v expr_check code %d' % fails[idx],
                     {'text': o['text'], 'reparse': o['reparse']}, how='vh fmt-run expr')
+    # failing-input search: a tree outside the known classes on which model and printer disagree and which the real parser does
+    # not read back from the real printer's output is an input on which the property itself fails
+    shown = 0
+    for idx in sorted(fails):
+        t, toks, back, kn, o = cases[idx]
+        if kn or shown >= 3:
+            continue
+        if back is None or back == 'outside' or exprs.g_expr(back) != exprs.g_expr(t):
+            shown += 1
+            ck.property_failure('printed expression is not read back as the tree it was printed from', {'tree': exprs.to_json(t)},
+                                expected='parse(print(t)) = t', observed={'text': o['text'], 'reparse': o['reparse']},
+                                how='vh fmt-run expr')
     fine = 0
     for ex in extras:
         try:
